@@ -19,10 +19,10 @@ SRCS = dict(SRC_RAW=0, SRC_WRAPPER=1, SRC_TYPED=2)
 def scenario_of(h):
     """static part of the scenario, from the harness instantiation"""
     c = h.call or ''
-    m = re.match(r'(\w+)::<(\w+)>\((.*)\)$', c)
+    m = re.match(r'(\w+)::<([\w, \[\];()]+)>\((.*)\)$', c) or re.match(r'(\w+)()\((.*)\)$', c)
     if not m:
         return None
-    fn, ty, args = m.group(1), m.group(2), [a.strip() for a in m.group(3).split(',')]
+    fn, ty, args = m.group(1), m.group(2).split(',')[0].strip(), [a.strip() for a in m.group(3).split(',')]
     s = dict(esz=ESZ.get(ty, 8))
     if s['esz'] == 0:
         s['esz'] = 8     # the native driver has no identity for zero-sized values; same code path, size 8
@@ -35,6 +35,22 @@ def scenario_of(h):
         s.update(fam='lazy', push=int(args[0] == 'true'))
     elif fn == 'remove_erased':
         s.update(fam='remove', op=OPS[last(args[0])], sink=SINKS[last(args[1])])
+    elif fn in ('lazy_h', 'lazy_splice_h'):
+        s.update(fam='lazyall')
+    elif fn.startswith('heap_') or fn in ('with_capacity_h', 'new_in_h'):
+        s.update(fam='heap')
+    elif fn.startswith('copy_bytes_'):
+        s.update(fam='insert', src=0, push=0)
+    elif fn == 'clone_empty_h':
+        s.update(fam='clone')
+    elif fn in ('clone_fn_h', 'drop_closure_h'):
+        s.update(fam='lazyall') if fn == 'clone_fn_h' else s.update(fam='clear')
+    elif fn in ('k3_insert_h',):
+        s.update(fam='insert', src=0, push=0, esz=8)
+    elif fn in ('k3_remove_h',):
+        s.update(fam='remove', op=0, sink=1, esz=8)
+    elif fn == 'drain_hb':
+        s.update(fam='drain', how=1)
     elif fn == 'drain_h':
         s.update(fam='drain', how=3 if args[2] == 'FORGET' else 1)
     elif fn == 'splice_h':
@@ -49,6 +65,28 @@ def scenario_of(h):
             s.update(fam='insert', src=1, push=0, oob=1)
         else:
             s.update(fam='remove', op=op, sink=1, oob=1)
+    elif fn in ('into_range_ok_h', 'into_range_bad_h', 'range_op_bad'):
+        s.update(fam='range')
+    elif fn in ('admit_mismatch_raw', 'admit_mismatch_wrapper', 'splice_mismatch_h', 'downcast_table', 'downcast_handle'):
+        s.update(fam='mismatch')
+    elif fn in ('iter_h', 'range_iter_h'):
+        s.update(fam='iter')
+    elif fn == 'views_h' or fn in ('empty_h', 'dangling_h'):
+        s.update(fam='views')
+    elif fn == 'swap_h':
+        s.update(fam='swap')
+    elif fn in ('rawparts_h', 'rawparts_empty_h', 'heap_rawparts_h'):
+        s.update(fam='rawparts')
+    elif fn in ('heap_expand_h',):
+        s.update(fam='growth')
+    elif fn in ('stack_build_h', 'stackn_build_h', 'stackn_insufficient_h', 'fixed_overflow'):
+        s.update(fam='stack')
+    elif fn in ('get_h', 'get_typed_h', 'at_oob_h', 'none_ops'):
+        s.update(fam='get')
+    elif fn == 'remove_typed':
+        s.update(fam='remove', op=OPS[last(args[0])], sink=2)
+    elif fn == 'vecdrop_h':
+        s.update(fam='clear')
     elif fn == 'clear_h':
         s.update(fam='clear')
     elif fn == 'clone_h':
@@ -103,6 +141,11 @@ def native_replay(h, info, repo, scratch):
             res.update(reproduced=True, scenario=r['scenario'], failure=r['failure'], how='verifier counterexample replayed on the real code')
             return res
     variants = [scn]
+    if h.name.startswith(('clone_fixed', 'splice_fixed', 'insert_raw_fixed', 'push_raw_fixed', 'insert_typed_fixed')):
+        variants.append(dict(fam='stack', esz=8))
+    if scn.get('fam') in ('clear', 'remove', 'drain', 'splice', 'clone', 'insert', 'lazy'):
+        # user code (Drop / Clone / replacement iterator) panicking at its k-th invocation
+        variants += [dict(scn, panic_at=k) for k in (1, 2, 3)]
     if scn.get('misreport'):
         variants = [dict(scn, report_delta=d) for d in (-1, 1, -2, 2)]
     for v in variants:
